@@ -167,6 +167,7 @@ static int cif_container_create_loop_internal(
         SET_RESULT(CIF_MEMORY_ERROR);
     } else {
 
+        temp->names = NULL;
         temp->category = cif_u_strdup(category);
         if ((category != NULL) && (temp->category == NULL)) {
             SET_RESULT(CIF_MEMORY_ERROR);
@@ -174,7 +175,6 @@ static int cif_container_create_loop_internal(
             NESTTX_HANDLING;
 
             TRACELINE;
-            temp->names = NULL;
 
             /* begin a transaction */
             if (BEGIN_NESTTX(cif->db) == SQLITE_OK) {
